@@ -436,7 +436,12 @@ func (w *World) execHostile(stepIdx int, st *Step) {
 			h.guard("commitment.GetCommitment", in, func() { _, _ = commitment.GetCommitment(&j, uint(core.Pick(r, []int{18, 19, 0, 22, 1 << 20}))) })
 		case "canonical":
 			var b []byte
-			switch r.Intn(6) {
+			switch r.Intn(7) {
+			case 6:
+				// a JSON text written by hand (every escape form, surrogate pairs and lone surrogates, numbers in every notation)
+				// cut off at an arbitrary byte: a reader that looks ahead must notice the end of its input everywhere
+				full := core.Pick(r, escapeTexts)
+				b = []byte(full[:r.Intn(len(full)+1)])
 			case 0:
 				b = r.Bytes(r.Range(0, 100))
 			case 1:
@@ -565,4 +570,13 @@ func init() {
 			"sender of hostile input": "stub (adversary / hostile wallet)"},
 		Assumptions: worldAssumptions,
 	})
+}
+
+// escapeTexts: hand-written JSON texts with every escape form; the hostile generator truncates them at every offset.
+var escapeTexts = []string{
+	`{"a":"\ud83d\ude00","b":"\u00e9\u2028\\\"\/\b\f\n\r\t","\ud83d\ude00":1}`,
+	`["\ud83d","\ude00x","\uD83D\uDE00","\ud83d\u0041"]`,
+	`{"type":"create","suffixData":{"anchorOrigin":"\uD83D\uDE00","deltaHash":"EiA"},"delta":{"patches":[]}}`,
+	`{"n":[1e21,-0,0.000001,1E-7,123456789012345678901234567890,4.5e-324,1.7976931348623157e308],"t":true,"f":false,"z":null}`,
+	`"\udc00\ud800"`,
 }
